@@ -380,8 +380,12 @@ Section Typing.
     | SAssign x t e =>
         if opt_is (tlookup x G) (width t) && opt_is (wt_expr G e) (width t) then Some G else None
     | SStore x tw off w e =>
-        if opt_is (tlookup x G) tw && opt_is (wt_expr G e) w && Nat.leb (off + w) tw
-        then Some G else None
+        (* the stored value may be wider than the slot (a literal in its
+           container, copy() of a longer array): only its low w bits are stored *)
+        match wt_expr G e with
+        | Some _ => if opt_is (tlookup x G) tw && Nat.leb (off + w) tw then Some G else None
+        | None => None
+        end
     | SIf c a b =>
         if opt_is (wt_expr G c) 1
         then match wt_stmt G a, wt_stmt G b with
